@@ -168,6 +168,48 @@ Theorem account_amount_called_twice_is_own : forall ord o ps a,
 Proof. exact own_lazy_eq. Qed.
 Print Assumptions account_amount_called_twice_is_own.
 
+(* ---- the tree-form balance report reads back as a tree: partial_name and get_depth_spacer
+        (model: partial_of / spacer_of over the TO_DISPLAY marks mark_accounts leaves) are such
+        that a reader who keeps the last name seen at each indentation level and appends a
+        line's partial name to the name one level up recovers, line by line, exactly the
+        accounts of the balance rows. ---- *)
+Theorem layout_reads_back : forall ord cp o ps rows,
+  o_flat o = false ->
+  bal_layout ord cp o ps = Ok rows ->
+  read_tree [] (map (fun l => (l_spacer l, l_partial l)) rows) = map l_acct rows.
+Proof. exact layout_reads_back_uncond. Qed.
+Print Assumptions layout_reads_back.
+
+(* the invariant of mark_accounts behind it: in tree form every displayed level (an ancestor
+   with more than one displayed child branch, or marked TO_DISPLAY) is itself a printed line
+   that passes the display predicate *)
+Theorem displayed_levels_are_printed : forall ord cp o ps,
+  o_flat o = false -> layout_ok ord cp o ps = Ok true.
+Proof. exact layout_ok_holds. Qed.
+Print Assumptions displayed_levels_are_printed.
+
+Theorem layout_flat_reads_back : forall ord cp o ps rows,
+  o_flat o = true ->
+  bal_layout ord cp o ps = Ok rows ->
+  read_tree [] (map (fun l => (l_spacer l, l_partial l)) rows) = map l_acct rows.
+Proof. exact layout_flat_reads_back_gen. Qed.
+Print Assumptions layout_flat_reads_back.
+
+Theorem layout_lines_are_balance_rows : forall ord cp o ps rows lrows,
+  bal_rows ord cp o ps = Ok rows -> bal_layout ord cp o ps = Ok lrows ->
+  map l_acct lrows = map b_acct rows.
+Proof. exact bal_layout_accounts. Qed.
+Print Assumptions layout_lines_are_balance_rows.
+
+(* the same for any level test cnt and any set of printed lines in which every displayed level
+   is printed: the statement about the reader does not depend on how the marks were computed *)
+Theorem tree_reads_back_parametric : forall cnt shown all fuel,
+  shown [] = false ->
+  (forall y, In y (pre all fuel []) -> y <> [] -> cnt y = true -> shown y = true) ->
+  read_tree [] (rows_of_list cnt shown (pre all fuel [])) = filter shown (pre all fuel []).
+Proof. intros cnt shown all fuel H. exact (read_tree_pre cnt shown all H fuel). Qed.
+Print Assumptions tree_reads_back_parametric.
+
 (* ---- lots: whatever lot details are kept, the displayed value has, for every base commodity s,
         the sum of all annotated variants of s in the exact value (showing lots refines a total
         but never changes its per-commodity sum) ---- *)
